@@ -302,7 +302,7 @@ func runC18(r *mon.Run) {
 		"Deciding oracle: the Go race detector (binary built with -race; reports collected from its log); second: every concurrent result " +
 		"equals the sequential result computed AFTER the concurrent phase (so first touches of lazily initialised state happen " +
 		"concurrently), including a power-of-ten pressure phase in which 16 goroutines hammer shared operands whose coefficient lengths " +
-		"and exponent gaps are distinct but congruent modulo 128 and 512 (torn or mis-keyed caches return wrong values without any data race); third: shared operands, Contexts and the package shared-state fingerprint unchanged at each quiescent point. " +
+		"and exponent gaps are distinct but congruent modulo 128 and 512, and divide, take roots, multiply and round at five different working precisions between 500 and 9000 digits (torn or mis-keyed caches return wrong values without any data race); third: shared operands, Contexts and the package shared-state fingerprint unchanged at each quiescent point. " +
 		"distinct_nontrivial = distinct (op, op) pairs observed in overlapping calls plus distinct steps that overlapped another call."
 	r.Assumptions = []string{"the race detector reports unsynchronised conflicting accesses between code paths the workload ran concurrently; its bounded per-word history can miss a race in one round, hence many rounds",
 		"destinations are never shared (the contract forbids it)"}
@@ -486,9 +486,43 @@ func runC18(r *mon.Run) {
 			small := br.ToApd(dec.FromInt(rr.Range(1, 999), 0))
 			ctx := br.Context(dec.Ctx{P: 100, Emin: -6143, Emax: 6144, Mode: "half_even"}, 0)
 			wide := br.Context(dec.Ctx{P: 4000, Emin: -100000, Emax: 100000, Mode: "half_even"}, 0)
+			// high working precisions, different in every round and from each other:
+			// divisions and roots at 500..10000 digits ask for powers of ten far
+			// beyond any table, a different one per precision
+			hp := []*apd.Context{}
+			for _, p := range []int64{520 + int64(rr.Intn(400)), 1030 + int64(rr.Intn(900)), 2050 + int64(rr.Intn(1900)), 4100 + int64(rr.Intn(1500)), 6000 + int64(rr.Intn(3000))} {
+				hp = append(hp, br.Context(dec.Ctx{P: p, Emin: -100000, Emax: 100000, Mode: "half_even"}, 0))
+			}
+			var huge []*apd.Decimal
+			hbase := int64(4200 + rr.Intn(900))
+			for i := int64(0); i < 4; i++ {
+				cf, _ := new(big.Int).SetString(gen.Digits(rr, hbase+1700*i), 10)
+				huge = append(huge, br.ToApd(dec.D{Form: dec.Finite, Neg: rr.Bool(), C: cf, E: -rr.Range(0, 3000)}))
+			}
+			num, den := br.ToApd(dec.FromInt(rr.Range(1, 99), 0)), br.ToApd(dec.FromInt(rr.Range(3, 97)|1, 0))
+			digest := func(d *apd.Decimal) string {
+				s := d.Coeff.String()
+				tail := s
+				if len(tail) > 24 {
+					tail = s[:12] + ".." + s[len(s)-12:]
+				}
+				return fmt.Sprint(len(s), " ", tail, " ", d.Exponent, " ", d.Form)
+			}
 			exec := func(kind, i, j int) string {
 				var d apd.Decimal
 				switch kind {
+				case 7:
+					res, _ := hp[j%len(hp)].Quo(&d, num, den)
+					return digest(&d) + br.FlagNames(res)
+				case 8:
+					res, _ := hp[j%3].Sqrt(&d, den)
+					return digest(&d) + br.FlagNames(res)
+				case 9:
+					res, _ := ctx.Round(&d, huge[i%len(huge)])
+					return digest(&d) + br.FlagNames(res) + fmt.Sprint(huge[i%len(huge)].NumDigits())
+				case 10:
+					res, _ := hp[j%len(hp)].Mul(&d, huge[i%len(huge)], huge[(i+1)%len(huge)])
+					return digest(&d) + br.FlagNames(res)
 				case 0:
 					return fmt.Sprint(ops[i].NumDigits())
 				case 1:
@@ -527,6 +561,9 @@ func runC18(r *mon.Run) {
 					<-barrier
 					for it := 0; it < iters; it++ {
 						k, i, j := gr.Intn(7), gr.Intn(len(ops)), gr.Intn(len(far))
+						if gr.Chance(1, 5) {
+							k = 7 + gr.Intn(4)
+						}
 						recs[g] = append(recs[g], rec{k, i, j, exec(k, i, j)})
 					}
 				}(g)
@@ -541,6 +578,53 @@ func runC18(r *mon.Run) {
 						atomic.AddInt64(&pressureMismatch, 1)
 						t.Fail("concurrent-result-differs", map[string]interface{}{"phase": "pow10-pressure", "round": round, "kind": rc.kind, "operand": rc.i, "far": rc.j,
 							"concurrent": clip(rc.out), "sequential": clip(want), "coefficient_digits_base": base, "exponent_gap_base": gbase})
+					}
+				}
+			}
+			// division storm: many divisions of the same two small operands at the
+			// five working precisions at once; every call of one precision has one
+			// right answer, computed sequentially afterwards
+			{
+				const G2, iters2 = 16, 1200
+				outs := make([][]string, G2)
+				idx := make([][]int, G2)
+				barrier2 := make(chan struct{})
+				var wg2 sync.WaitGroup
+				for g := 0; g < G2; g++ {
+					wg2.Add(1)
+					go func(g int) {
+						defer wg2.Done()
+						gr := rng.New(r.Seed, fmt.Sprintf("c18-storm-%d", round), int64(g))
+						<-barrier2
+						for it := 0; it < iters2; it++ {
+							j := gr.Intn(len(hp))
+							if j >= 3 && gr.Chance(3, 4) {
+								j = gr.Intn(3) // the larger precisions cost more: fewer of them
+							}
+							var d apd.Decimal
+							res, _ := hp[j].Quo(&d, num, den)
+							outs[g] = append(outs[g], digest(&d)+br.FlagNames(res))
+							idx[g] = append(idx[g], j)
+						}
+					}(g)
+				}
+				close(barrier2)
+				wg2.Wait()
+				want := make([]string, len(hp))
+				for j := range hp {
+					var d apd.Decimal
+					res, _ := hp[j].Quo(&d, num, den)
+					want[j] = digest(&d) + br.FlagNames(res)
+				}
+				for g := range outs {
+					for k, o := range outs[g] {
+						atomic.AddInt64(&pressureCalls, 1)
+						t.Eval()
+						if o != want[idx[g][k]] {
+							atomic.AddInt64(&pressureMismatch, 1)
+							t.Fail("concurrent-result-differs", map[string]interface{}{"phase": "division-storm", "round": round, "precision": hp[idx[g][k]].Precision,
+								"concurrent": clip(o), "sequential": clip(want[idx[g][k]])})
+						}
 					}
 				}
 			}
